@@ -49,6 +49,24 @@ func IsCatalogTable(name string) bool {
 	return name == pageTableName || name == schemaTableName
 }
 
+// checkColumns reports ErrFieldNotFound if cols names a column the relation
+// does not have. A value given for such a column would be dropped silently.
+func (r *Relation) checkColumns(cols []string) error {
+	for _, col := range cols {
+		found := false
+		for _, fd := range r.Fields {
+			if fd.Name == col {
+				found = true
+				break
+			}
+		}
+		if !found {
+			return fmt.Errorf("%w: %s", ErrFieldNotFound, col)
+		}
+	}
+	return nil
+}
+
 type FieldDef struct {
 	DataType
 	Name string
@@ -898,6 +916,9 @@ func (rs *RelationService) Insert(tableName string, cols []string, vals []interf
 	if len(cols) != len(vals) {
 		return walLogs, ErrColCountMismatch
 	}
+	if err := schema.checkColumns(cols); err != nil {
+		return walLogs, err
+	}
 
 	for i, col := range cols {
 		tuple.Vals[col] = vals[i]
@@ -963,6 +984,9 @@ func (rs *RelationService) CheckInsert(tableName string, cols []string, vals []i
 	if len(cols) != len(vals) {
 		return ErrColCountMismatch
 	}
+	if err := schema.checkColumns(cols); err != nil {
+		return err
+	}
 
 	tuple := Tuple{
 		Relation: schema,
@@ -995,6 +1019,9 @@ func (rs *RelationService) CheckUpdate(tableName string, rowID uint32, cols []st
 
 	r, err := rs.getRelationSchema(tableName)
 	if err != nil {
+		return err
+	}
+	if err := r.checkColumns(cols); err != nil {
 		return err
 	}
 
@@ -1043,6 +1070,9 @@ func (rs *RelationService) Update(tableName string, rowID uint32, cols []string,
 
 	r, err := rs.getRelationSchema(tableName)
 	if err != nil {
+		return walLogs, err
+	}
+	if err := r.checkColumns(cols); err != nil {
 		return walLogs, err
 	}
 
